@@ -3,11 +3,13 @@ package tmpl
 import (
 	"fmt"
 	"go/ast"
+	"go/constant"
 	"go/token"
 	"go/types"
 	"sort"
 	"strings"
 
+	"golang.org/x/tools/go/cfg"
 	"golang.org/x/tools/go/packages"
 
 	"verif/checker/internal/core"
@@ -26,11 +28,12 @@ type argsFlow struct {
 	retTaint map[types.Object]map[int]bool // function -> tainted result indexes
 	bad     map[string]token.Pos
 	changed bool
+	gates   map[*ast.FuncDecl]bool
 }
 
 func runArgsFlow(c *core.Ctx, p *packages.Package, rel, src string) {
 	a := &argsFlow{p: p, parent: map[ast.Node]ast.Node{}, tainted: map[types.Object]bool{}, funcs: map[types.Object]*ast.FuncDecl{},
-		retTaint: map[types.Object]map[int]bool{}, bad: map[string]token.Pos{}}
+		retTaint: map[types.Object]map[int]bool{}, bad: map[string]token.Pos{}, gates: gateFuncs(p)}
 	for _, f := range p.Syntax {
 		var stack []ast.Node
 		ast.Inspect(f, func(n ast.Node) bool {
@@ -254,6 +257,11 @@ func (a *argsFlow) follow(n ast.Node) {
 			}
 			if o := a.callee(t); o != nil && idx >= 0 {
 				fd := a.funcs[o]
+				// an informational mode (--version, --help): the gate has no effect unless it returns true, and main then
+				// returns before a request is read (gateFuncs)
+				if a.gates[fd] {
+					return
+				}
 				k := 0
 				done := false
 				for _, fl := range fd.Type.Params.List {
@@ -381,4 +389,196 @@ func (a *argsFlow) followCallResult(call *ast.CallExpr, idx map[int]bool) {
 	if idx[0] {
 		a.follow(call)
 	}
+}
+
+// ---------------------------------------------------------------------------
+// Informational command-line modes
+//
+// `if printInfo(os.Args, os.Stdout) { return }` at the top of main: a function of the package that answers `--version`
+// / `--help` and reports whether it did. Such a *gate* may look at the command line and write to standard output,
+// provided that it has no effect at all unless it returns true — in which case main returns before any request is
+// read. gateFuncs finds the functions that are used in exactly that way and proves the proviso on their control-flow
+// graph: every block that contains an effect (a call other than len/cap/conversions/string predicates, a store to a
+// non-local, go/defer/send) reaches only `return true`.
+
+func gateFuncs(p *packages.Package) map[*ast.FuncDecl]bool {
+	out := map[*ast.FuncDecl]bool{}
+	if p == nil || p.Name != "main" {
+		return out
+	}
+	info := p.TypesInfo
+	decls := map[types.Object]*ast.FuncDecl{}
+	var mainFn *ast.FuncDecl
+	for _, f := range p.Syntax {
+		for _, d := range f.Decls {
+			if fd, ok := d.(*ast.FuncDecl); ok && fd.Body != nil && fd.Recv == nil {
+				decls[info.Defs[fd.Name]] = fd
+				if fd.Name.Name == "main" {
+					mainFn = fd
+				}
+			}
+		}
+	}
+	if mainFn == nil {
+		return out
+	}
+	// gate call sites: top-level `if f(...) { return }` in main
+	gateCalls := map[*ast.Ident]bool{}
+	cand := map[types.Object]bool{}
+	for _, st := range mainFn.Body.List {
+		is, ok := st.(*ast.IfStmt)
+		if !ok || is.Init != nil || is.Else != nil || len(is.Body.List) != 1 {
+			continue
+		}
+		if rs, ok := is.Body.List[0].(*ast.ReturnStmt); !ok || len(rs.Results) != 0 {
+			continue
+		}
+		call, ok := ast.Unparen(is.Cond).(*ast.CallExpr)
+		if !ok {
+			continue
+		}
+		id, ok := ast.Unparen(call.Fun).(*ast.Ident)
+		if !ok || decls[info.Uses[id]] == nil {
+			continue
+		}
+		gateCalls[id] = true
+		cand[info.Uses[id]] = true
+	}
+	// every other use of the function disqualifies it
+	for id, o := range info.Uses {
+		if cand[o] && !gateCalls[id] {
+			delete(cand, o)
+		}
+	}
+	for o := range cand {
+		if fd := decls[o]; exitGated(info, fd) {
+			out[fd] = true
+		}
+	}
+	return out
+}
+
+func exitGated(info *types.Info, fd *ast.FuncDecl) bool {
+	sig, ok := info.Defs[fd.Name].Type().(*types.Signature)
+	if !ok || sig.Results().Len() != 1 || !types.Identical(sig.Results().At(0).Type(), types.Typ[types.Bool]) {
+		return false
+	}
+	if fd.Type.Results != nil && len(fd.Type.Results.List) == 1 && len(fd.Type.Results.List[0].Names) > 0 {
+		return false // named result: returns are not plain constants
+	}
+	locals := map[types.Object]bool{}
+	ast.Inspect(fd, func(n ast.Node) bool {
+		if id, ok := n.(*ast.Ident); ok {
+			if o := info.Defs[id]; o != nil {
+				locals[o] = true
+			}
+		}
+		return true
+	})
+	hasEffect := func(n ast.Node) bool {
+		eff := false
+		ast.Inspect(n, func(x ast.Node) bool {
+			switch t := x.(type) {
+			case *ast.FuncLit:
+				eff = true
+				return false
+			case *ast.GoStmt, *ast.DeferStmt, *ast.SendStmt:
+				eff = true
+			case *ast.UnaryExpr:
+				if t.Op == token.ARROW {
+					eff = true
+				}
+			case *ast.CallExpr:
+				if tv, ok := info.Types[t.Fun]; ok && tv.IsType() {
+					return true
+				}
+				q := qualOf(info, t.Fun)
+				if q == "builtin.len" || q == "builtin.cap" || strings.HasPrefix(q, "strings.") || q == "path/filepath.Base" || q == "path.Base" {
+					return true
+				}
+				eff = true
+			case *ast.AssignStmt:
+				for _, l := range t.Lhs {
+					id, ok := ast.Unparen(l).(*ast.Ident)
+					if !ok || (id.Name != "_" && !locals[info.ObjectOf(id)]) {
+						eff = true
+					}
+				}
+			case *ast.IncDecStmt:
+				if id, ok := ast.Unparen(t.X).(*ast.Ident); !ok || !locals[info.ObjectOf(id)] {
+					eff = true
+				}
+			}
+			return true
+		})
+		return eff
+	}
+	g := cfg.New(fd.Body, func(*ast.CallExpr) bool { return true })
+	// classify returns
+	retKind := map[*cfg.Block]int{} // 1 return false, 2 return true, 3 other
+	for _, b := range g.Blocks {
+		for _, n := range b.Nodes {
+			rs, ok := n.(*ast.ReturnStmt)
+			if !ok {
+				continue
+			}
+			k := 3
+			if len(rs.Results) == 1 {
+				if tv, ok := info.Types[rs.Results[0]]; ok && tv.Value != nil && tv.Value.Kind() == constant.Bool {
+					k = 1
+					if constant.BoolVal(tv.Value) {
+						k = 2
+					}
+				}
+			}
+			retKind[b] = k
+		}
+	}
+	for _, k := range retKind {
+		if k == 3 {
+			return false
+		}
+	}
+	// from every effect block only `return true` is reachable
+	for _, b := range g.Blocks {
+		if !b.Live {
+			continue
+		}
+		eff := false
+		for _, n := range b.Nodes {
+			if _, isRet := n.(*ast.ReturnStmt); isRet {
+				continue
+			}
+			if hasEffect(n) {
+				eff = true
+			}
+		}
+		if !eff {
+			continue
+		}
+		seen := map[*cfg.Block]bool{}
+		var dfs func(x *cfg.Block) bool
+		dfs = func(x *cfg.Block) bool {
+			if seen[x] {
+				return true
+			}
+			seen[x] = true
+			if k, isRet := retKind[x]; isRet {
+				return k == 2
+			}
+			if len(x.Succs) == 0 {
+				return false // leaves the function some other way
+			}
+			for _, s := range x.Succs {
+				if !dfs(s) {
+					return false
+				}
+			}
+			return true
+		}
+		if !dfs(b) {
+			return false
+		}
+	}
+	return true
 }
